@@ -7,7 +7,7 @@
     RESP fake; spec/TraceDurable.tla explains the command journal + acknowledgement markers as a behaviour of
     Durable.tla and prints, per journal prefix, the `required` state.
  3. fault enumeration: a NEW broker is started on every journal prefix (quick: every prefix of 24 histories; thorough:
-    every prefix of 600 histories) and compared with `required`: start-up succeeds, sessions, subscriptions with
+    every prefix of 300 histories) and compared with `required`: start-up succeeds, sessions, subscriptions with
     options, redelivery on CONNECT with Clean Start 0, QoS2 identifiers awaiting PUBREL.
 
   ./check C09 quick|thorough          VERIF_SEED drives histories and (when sampling) the prefixes
@@ -48,6 +48,30 @@ def steps_until(hist, recs, h, k):
     return out
 
 
+def report_journal(ctx, outs, recs, by_id):
+    """command-level deviations the specification needed, and acknowledged facts the journal prefix does not hold"""
+    used_first, lost_first = {}, {}
+    for (h, k), o in sorted(outs.items()):
+        for d in o["used"]:
+            if d not in used_first or (k, h) < used_first[d]:
+                used_first[d] = (k, h)
+        for x in o["lost"]:
+            if x["what"] not in lost_first or (k, h) < lost_first[x["what"]][:2]:
+                lost_first[x["what"]] = (k, h, x)
+        if not o["sok"]:
+            lost_first.setdefault("startup", (k, h, {"what": "startup"}))
+    for d, (k, h) in sorted(used_first.items()):
+        ctx.violation("command journal deviates from the demanded commands: " + TV_WHAT.get(d, d),
+                      {"signature": "tv:" + d, "kind": "journal-deviation", "history": {**by_id[h], "steps": steps_until(by_id[h], recs, h, k)},
+                       "k": k, "journal": example(recs, h, k)})
+    for w, (k, h, x) in sorted(lost_first.items()):
+        ctx.violation("an acknowledgement marker is in the journal but the store at that prefix does not agree with the acknowledged facts "
+                      "(%s %s of %s): start-up on that prefix cannot yield them" % (w, x.get("x", ""), x.get("c", "")),
+                      {"signature": "tv:ack_without_durable_fact:" + w, "kind": "journal-order",
+                       "history": {**by_id[h], "steps": steps_until(by_id[h], recs, h, k)}, "k": k, "lost": x, "journal": example(recs, h, k)})
+    ctx.cov["journal"] = {"deviations_used": sorted(used_first), "ack_without_durable_fact": sorted(lost_first)}
+
+
 def run(ctx):
     quick = ctx.tier == "quick"
     rng = random.Random(ctx.seed)
@@ -76,7 +100,7 @@ def run(ctx):
     ctx.cov["design"] = design
 
     # ---- 2. histories on the real broker, journal validated by TraceDurable.tla
-    nh = 24 if quick else 600
+    nh = 24 if quick else 300
     hists = dl.gen_histories(rng, nh, "s%d_" % ctx.seed)
     by_id = {h["id"]: h for h in hists}
     recs, jp, rstats = dl.record(ctx, hists, par=8)
@@ -100,27 +124,7 @@ def run(ctx):
         ctx.violation("journal of history %s is not a behaviour of Durable.tla at entry %s: %s" % (rj["h"], rj["k"], json.dumps(ev)[:300]),
                       {"signature": "tv:rejected:" + kind.strip(), "kind": "journal", "history": by_id[rj["h"]], "k": rj["k"], "event": ev,
                        "before": rj["before"]})
-    # 2b. command-level deviations the specification needed, and acknowledged facts the journal prefix does not hold
-    used_first, lost_first = {}, {}
-    for (h, k), o in sorted(outs.items()):
-        for d in o["used"]:
-            if d not in used_first or (k, h) < used_first[d]:
-                used_first[d] = (k, h)
-        for x in o["lost"]:
-            if x["what"] not in lost_first or (k, h) < lost_first[x["what"]][:2]:
-                lost_first[x["what"]] = (k, h, x)
-        if not o["sok"]:
-            lost_first.setdefault("startup", (k, h, {"what": "startup"}))
-    for d, (k, h) in sorted(used_first.items()):
-        ctx.violation("command journal deviates from the demanded commands: " + TV_WHAT.get(d, d),
-                      {"signature": "tv:" + d, "kind": "journal-deviation", "history": {**by_id[h], "steps": steps_until(by_id[h], recs, h, k)},
-                       "k": k, "journal": example(recs, h, k)})
-    for w, (k, h, x) in sorted(lost_first.items()):
-        ctx.violation("an acknowledgement marker is in the journal but the acknowledged fact is not in the store at that prefix (%s %s of %s): "
-                      "start-up on that prefix cannot yield it" % (w, x.get("x", ""), x.get("c", "")),
-                      {"signature": "tv:ack_without_durable_fact:" + w, "kind": "journal-order",
-                       "history": {**by_id[h], "steps": steps_until(by_id[h], recs, h, k)}, "k": k, "lost": x, "journal": example(recs, h, k)})
-    ctx.cov["journal"] = {"deviations_used": sorted(used_first), "ack_without_durable_fact": sorted(lost_first)}
+    report_journal(ctx, outs, recs, by_id)
 
     # ---- 3. fault enumeration
     cases = dl.plan_prefixes(rng, recs, outs, None)
@@ -134,6 +138,10 @@ def run(ctx):
     ctx.cov["distinct_nontrivial"] += sum(1 for c in cases if c["nontrivial"])
     ctx.cov["restarts"] = {"prefixes_restarted": len(results), "facts_compared": fstats["checked"], "without_verdict": len(trouble),
                            "sessions_reconnected": sum(r["sessions"] for r in results),
+                           "subscriptions_compared": sum(r["nsubs"] for r in results),
+                           "messages_that_had_to_be_redelivered": sum(r["nmust"] for r in results),
+                           "messages_that_must_not_be_redelivered": sum(r["ndone"] for r in results),
+                           "qos2_ids_probed": sum(r["nids"] for r in results),
                            "exhaustive_over_recorded_journals": True}
     by_sig = {}
     for r in results:
@@ -194,8 +202,7 @@ def replay(ctx, rng):
     for rj in rejected:
         ctx.violation("journal rejected at entry %s: %s" % (rj["k"], json.dumps(rj["event"])[:300]),
                       {"signature": "tv:rejected:replay", "history": hist, "k": rj["k"]})
-    used = sorted({d for o in outs.values() for d in o["used"]})
-    vlib.log("deviations used by the journal: %s" % used)
+    report_journal(ctx, outs, recs, {hist["id"]: hist})
     cases = dl.plan_prefixes(rng, recs, outs, None)
     results, _ = dl.restart(ctx, jp, cases, name="replay", par=8)
     ctx.cov["evaluations"] += len(results)
